@@ -5,6 +5,7 @@ package main
 
 import (
 	"fmt"
+	yae "github.com/goghcrow/yae"
 	"github.com/goghcrow/yae/val"
 	"strings"
 	"time"
@@ -116,6 +117,53 @@ func runC03(r *Run) {
 					judgeBackendsWith(r, evalCase{fmt.Sprintf(tpl, a, b), false}, zvars, zvals)
 				}
 				r.Count("host-times-other-zone pairs")
+			}
+		}
+	}
+	// one compiled expression per back end invoked on a sequence of environments: every invocation must give what a
+	// fresh compilation gives on that environment, on every back end (thunk bodies, constant pools and VM state are
+	// shared by the invocations of one Callable)
+	{
+		alt := stdValues()
+		alt["x"], alt["y"], alt["b"], alt["f"], alt["s"] = val.Num(-4), val.Num(0.5), val.False, val.True, val.Str("zz")
+		seq := []map[string]*val.Val{stdValues(), alt, stdValues(), alt}
+		for _, src := range []string{`lazyif(b, x, y) + 1`, `lazyif(x > 0, s, e)`, `both(b, x > 0)`, `lazyif(b, tr(x), tr(y))`, `lazyif(f, 1, lazyif(b, x, y))`, `[lazyif(b, s, e), trs(s)]`,
+			`lazyif(b, lazyif(b, tr(x), tr(y)), tr(3)) + 100`, `if(b, x, y) + tr(x)`, `b && x > 0 || tr(y) > 0`, `x + y * 2`, `[x: s, y: e]`, `abs(y) + y`, `y - floor(y)`, `{p: x, q: s}.p + o.p`,
+			`ident(x) + inc(y)`, `pick([x], s)`, `get(mb, x) + len(xs)`} {
+			for bi, be := range backends {
+				tl := &traceLog{}
+				var cl yae.Callable
+				var cerr error
+				if pan, _ := protect(func() { cl, cerr = newExpr(be, tl, true).Compile(src, typeEnvOf(vars)) }); pan || cerr != nil {
+					continue
+				}
+				for k, vals := range seq {
+					var got outcome
+					tl.ev = nil
+					var v *val.Val
+					var err error
+					mark(fmt.Sprintf("invocation #%d of one Callable for %q on back end %s", k+1, src, be))
+					pan, msg := protect(func() { v, err = cl(valEnvOf(vals)) })
+					got.trace = tl.ev
+					switch {
+					case pan:
+						got.cls = classify(msg)
+					case err != nil:
+						got.cls = classify(err.Error())
+					default:
+						got.cls, got.v = "value", v
+					}
+					want := runOn(be, src, vars, vals, true)
+					r.Count("re-invocation cases")
+					if !obsEqual(got, want) {
+						r.Violate("reinvocation-differs-from-fresh-compilation", fmt.Sprintf("%q on %s, invocation #%d of one Callable", src, be, k+1), fmt.Sprintf("got %s, a fresh compilation gives %s", brief(got), brief(want)))
+					}
+					if bi == 0 || bi == 2 {
+						tag := map[string]string{"closure": "evalsrc", "vm-switch": "vmsrc"}[be]
+						hs := historyFor(true)
+						r.Case(L(A(tag), hs.Sx(), tenvSx(vars), venvSx(vars, vals), oraclesSx(src, vals), Runes(src)), got.Sx())
+					}
+				}
 			}
 		}
 	}
